@@ -1350,7 +1350,7 @@ func main() {
 		"overlap stratum: an application may keep one *op.JWTProfileVerifier for the provider's life (NewJWTProfileVerifier returns a pointer, OpenIDProvider.JWTProfileVerifier hands out pointers); what a request is entitled to never depends on what else the provider is serving: each of two overlapping requests (tokens of different chains) is judged exactly as a sequential one; a second request that cannot finish while the first is parked is inconclusive, never a verdict",
 		"forced interleaving: the order in which the storage is asked to rotate is the order of the sequential model: the rival (served completely while the first request is parked) is judged as a request presenting a live token, the parked request as one presenting a token rotated away; if the rival is refused the parked request is judged as usual (success grey, after a failed attempt)")
 	n := run.N(4000, 40000)
-	nOverlap := run.N(160, 1600)
+	nOverlap := run.N(160, 3000)
 	sched.Install() // the library's spans, the storage calls and the client getters become yield points (overlap.go); inert unless a goroutine is registered
 	if rc := run.ReplayCase(); rc >= 0 {
 		if rc >= overlapBase {
